@@ -36,6 +36,9 @@ def exn_name(e):
     return 'ECustom'
 
 
+FN_KIND = {}   # id(callable) -> ('fn0' | 'fn1', callable): how a generated callable is meant to be called
+
+
 class Values:
     """Conversion between model values and Python values (with a registry for callables)."""
 
@@ -61,8 +64,34 @@ class Values:
             return [self.py(x) for x in v[1]]
         if k in ('fn0', 'fn1'):
             r = self.py(v[1])
-            f = (lambda: r) if k == 'fn0' else (lambda self: r)
+            # the kind of callable varies: lambda, bound method of another object, functools.partial, callable object
+            # (zero parameters = called without, one parameter = called with the instance)
+            self.nfn = getattr(self, 'nfn', 0) + 1
+            flavour = self.nfn % 4
+            if flavour == 0:
+                f = (lambda: r) if k == 'fn0' else (lambda self: r)
+            elif flavour == 1:
+                class Source:
+                    def zero(self):
+                        return r
+
+                    def one(self, instance):
+                        return r
+                f = Source().zero if k == 'fn0' else Source().one
+            elif flavour == 2:
+                import functools
+                f = functools.partial(lambda a: r, 1) if k == 'fn0' else functools.partial(lambda a, instance: r, 1)
+            else:
+                class Zero:
+                    def __call__(self):
+                        return r
+
+                class One:
+                    def __call__(self, instance):
+                        return r
+                f = Zero() if k == 'fn0' else One()
             self.fns[id(f)] = (v, f)
+            FN_KIND[id(f)] = (k, f)
             return f
         raise ValueError(v)
 
@@ -389,6 +418,7 @@ class Impl:
             return fn
 
         saved_roots = list(hooks_mod.root_hooks)
+        pyfns = {}
         try:
             for o in ops:
                 k = o[0]
@@ -398,7 +428,9 @@ class Impl:
                     if k == 'register':
                         i, im = o[1], o[2]
                         hk = getattr(self.classes[im['owner']], f"h{im['hook']}")
-                        hfs[i] = hk(make_function(i, im), tryfirst=im['tier'] == 0, trylast=im['tier'] == 2,
+                        # 'same_as': the very same Python function object is registered once more (as plugins do with shared defaults)
+                        pyfns[i] = pyfns[im['same_as']] if im.get('same_as') in pyfns else make_function(i, im)
+                        hfs[i] = hk(pyfns[i], tryfirst=im['tier'] == 0, trylast=im['tier'] == 2,
                                     wrapper=im['wrapper'])
                         outs.append(('done',))
                     elif k == 'remove':
